@@ -239,7 +239,7 @@ def evaluate(ck, prog, rule, table, floor=None):
                     msgs.append("line %d `%s`: %s" % (x.line, x.text, why))
             ck.ob(rule, ob.oid, okall, common.where(f, gs[0].line),
                   ("%s: %s" % (ob.why, "; ".join(msgs))) if not okall else
-                  "%s: `%s` -> %s" % (ob.why, gs[0].text, "/".join(str(z) for z in ob.fail)), key=key)
+                  "%s: `%s` -> %s" % (ob.why, gs[0].text, "/".join(str(z) for z in (ob.fail or ()))), key=key)
             continue
         # must-pass
         cut = set()
